@@ -29,6 +29,7 @@ be issued.
 from __future__ import absolute_import
 
 import uuid
+import collections.abc
 
 from slimta.relay import RelayError
 
@@ -65,11 +66,17 @@ class ProxyQueue(object):
 
     def enqueue(self, envelope):
         try:
-            self.relay._attempt(envelope, 0)
+            results = self.relay._attempt(envelope, 0)
         except RelayError as e:
             return [(envelope, e)]
-        else:
-            return [(envelope, uuid.uuid4().hex)]
+        # A relay may report its outcome per recipient.
+        if isinstance(results, collections.abc.Mapping):
+            results = list(results.values())
+        if isinstance(results, (list, tuple)):
+            for rcpt_result in results:
+                if isinstance(rcpt_result, RelayError):
+                    return [(envelope, rcpt_result)]
+        return [(envelope, uuid.uuid4().hex)]
 
 
 # vim:et:fdm=marker:sts=4:sw=4:ts=4
